@@ -136,6 +136,64 @@ Theorem C12_enumeration_repaired :
   forallb (fun sm => is_ok (recv repaired false (fst sm) (snd sm)) && is_ok (recv repaired true (fst sm) (snd sm)))%bool enum_all = true.
 Proof. exact enum_repaired_ok. Qed.
 
+(* ---- the path into the local session ----------------------------------------------------
+   A forwarded participants/update event reaches ClientSession.filterMessage, which reads
+   entry["sessionId"].(string) of every entry of users / changed without a check, still in
+   the federation read goroutine.  [uentry] distinguishes, per entry, the two members the
+   code reads as a session id ("sessionId", "sessionid": missing / not a string / the remote
+   id of the federated session / another string) and the actor members. *)
+(* without the validation, after the hello, with working or failing writes: such an event
+   ends the process iff, after updateEventUsers, an entry is left without a string "sessionId" *)
+Theorem C12_session_path_exact : forall v wf s m e u,
+  v_valid v = false -> hello_done s = true ->
+  m_tag m = TEvent -> m_event m = Some e ->
+  e_target e = GParticipants -> e_type e = YUpdate -> e_update e = Some u ->
+  (out_of (recv v wf s m) = Panic <-> session_filter_panics (rewrite_update (remote_sid s) u) = true).
+Proof. exact session_path_exact. Qed.
+(* what the validation demands of the entries is enough for the session, in every state,
+   for lists of any length ... *)
+Theorem C12_validated_entries_safe : forall sid e u,
+  e_target e = GParticipants -> e_type e = YUpdate -> e_update e = Some u ->
+  valid_event e = true -> session_filter_panics (rewrite_update sid u) = false.
+Proof. exact validated_entries_safe. Qed.
+(* ... and nothing it rejects is harmless, except the one entry updateEventUsers repairs:
+   any rejected entry, alone in users or in changed, ends the unvalidated process *)
+Theorem C12_rejected_entry_crashes : forall v wf s x in_changed,
+  v_valid v = false -> hello_done s = true ->
+  is_sid x = false -> (remote_sid s = false \/ is_own (entry_id x) = false) ->
+  out_of (recv v wf s (upd_event GParticipants (if in_changed : bool then mkU [x] [] else mkU [] [x]))) = Panic.
+Proof. exact rejected_entry_crashes. Qed.
+(* in particular the entry with only the lower-case member, which updateEventUsers accepts:
+   a validation that lets it pass (whatever else it checks) does not protect the session *)
+Theorem C12_lower_case_entry_refuted : forall s wf,
+  hello_done s = true ->
+  out_of (recv no_validation wf s (upd_event GParticipants (mkU [] [lower_only]))) = Panic.
+Proof. exact lower_case_validation_unsound. Qed.
+(* witnesses replayed on the implementation (which ignores them) every run *)
+Theorem C12_entry_witnesses :
+  out_of (recv no_validation false joined_sid (upd_event GParticipants (mkU [] [lower_only]))) = Panic /\
+  out_of (recv no_validation false joined_sid (upd_event GParticipants (mkU [lower_only] [USid]))) = Panic /\
+  out_of (recv no_validation false joined_nosid (upd_event GParticipants (mkU [] [UEnt VNone VOwn ANone]))) = Panic /\
+  out_of (recv no_validation false joined_sid (upd_event GParticipants (mkU [UEnt VNone VOwn ANone] [UEnt VBad VOwn ANone]))) = Ok /\
+  out_of (recv no_validation false joined_sid (upd_event GParticipants (mkU [] [UEnt VNone VOwn ANone; UEnt VNone VOwn ANone]))) = Panic /\
+  recv repaired false joined_sid (upd_event GParticipants (mkU [] [lower_only])) = (joined_sid, [], Ok).
+Proof. exact lowercase_entry_panics. Qed.
+(* enumeration over the entries: 7 stages x 2 targets x users lists of length <= 2 x changed
+   lists of length <= 1 over 21 entries (null, the 16 combinations of the two id members,
+   4 with actor members).  Without the validation 41 810 of 142 604 pairs end the process;
+   14 085 of them have a string id under one of the two spellings in every entry; none
+   passes the validation.  The repaired code returns on all of them. *)
+Theorem C12_enumeration_entries :
+  count (fun _ => true) enum_entries = 142604%N /\
+  count (panics no_validation false) enum_entries = 41810%N /\
+  count (panics original false) enum_entries = 41810%N /\
+  count (fun sm => (either_accepts sm && panics no_validation false sm)%bool) enum_entries = 14085%N /\
+  count (fun sm => (valid (snd sm) && panics no_validation false sm)%bool) enum_entries = 0%N.
+Proof. exact enum_entries_counts. Qed.
+Theorem C12_enumeration_entries_repaired :
+  forallb (fun sm => is_ok (recv repaired false (fst sm) (snd sm)) && is_ok (recv repaired true (fst sm) (snd sm)))%bool enum_entries = true.
+Proof. exact enum_entries_repaired_ok. Qed.
+
 (* Non-vacuity: the repaired client goes through welcome, hello and the join,
    forwards a message, survives an invalid one, reconnects and resumes. *)
 Example C12_nonvacuous :
@@ -168,3 +226,10 @@ Print Assumptions C12_close_refuted.
 Print Assumptions C12_each_repair_needed.
 Print Assumptions C12_enumeration_original.
 Print Assumptions C12_enumeration_repaired.
+Print Assumptions C12_session_path_exact.
+Print Assumptions C12_validated_entries_safe.
+Print Assumptions C12_rejected_entry_crashes.
+Print Assumptions C12_lower_case_entry_refuted.
+Print Assumptions C12_entry_witnesses.
+Print Assumptions C12_enumeration_entries.
+Print Assumptions C12_enumeration_entries_repaired.
